@@ -799,6 +799,10 @@ func (e *CoreExtension) functionDump(args ...interface{}) (interface{}, error) {
 		if i > 0 {
 			result.WriteString(", ")
 		}
+		if containsItself(reflect.ValueOf(arg), nil) {
+			result.WriteString(cyclicValueText)
+			continue
+		}
 		result.WriteString(fmt.Sprintf("%#v", arg))
 	}
 
@@ -1276,6 +1280,10 @@ func toString(v interface{}) string {
 		return stringOfNilSafe(v, func() string { return val.Error() })
 	case Node:
 		return ""
+	}
+
+	if containsItself(reflect.ValueOf(v), nil) {
+		return cyclicValueText
 	}
 
 	if s, ok := textWithoutAddress(v); ok {
@@ -1784,9 +1792,18 @@ func (e *CoreExtension) filterKeys(value interface{}, args ...interface{}) (inte
 		return keys, nil
 	}
 
-	// If it's a pointer, dereference it and try again
+	// If it's a pointer, dereference it and try again (a pointer that leads back to itself has no end)
 	if rv.Kind() == reflect.Ptr && !rv.IsNil() {
-		return e.filterKeys(rv.Elem().Interface(), args...)
+		target := rv
+		for hops := 0; (target.Kind() == reflect.Ptr || target.Kind() == reflect.Interface) && !target.IsNil(); hops++ {
+			if hops > 64 {
+				return nil, fmt.Errorf("cannot get keys from %T: it points to itself", value)
+			}
+			target = target.Elem()
+		}
+		if target.Kind() == reflect.Map && target.CanInterface() {
+			return e.filterKeys(target.Interface(), args...)
+		}
 	}
 
 	return nil, fmt.Errorf("cannot get keys from %T, expected map", value)
@@ -2411,7 +2428,13 @@ func (e *CoreExtension) filterFormat(value interface{}, args ...interface{}) (in
 		return formatString, nil
 	}
 
-	// Apply formatting
+	// Apply formatting (fmt follows an argument that contains itself until the stack is exhausted)
+	for i, arg := range args {
+		if containsItself(reflect.ValueOf(arg), nil) {
+			args = append([]interface{}(nil), args...)
+			args[i] = cyclicValueText
+		}
+	}
 	return fmt.Sprintf(formatString, args...), nil
 }
 
@@ -2455,7 +2478,7 @@ func (e *CoreExtension) filterSpaceless(value interface{}, args ...interface{}) 
 	}
 
 	// Convert to string if not already
-	str := fmt.Sprintf("%v", value)
+	str := toString(value)
 	if str == "" {
 		return "", nil
 	}
